@@ -128,7 +128,7 @@ def run(ctx):
                               label="PathDB.tla/" + wit)
             if r["violated"] is None:
                 raise vlib.Broken("witness %s is unreachable: the properties it guards are vacuous" % wit)
-        for bug in ("older-over-newer", "drop-del-at-flatten", "journal-misses-top", "no-stale-check", "owner-omitted", "no-clean-update"):
+        for bug in ("older-over-newer", "drop-del-at-flatten", "journal-misses-top", "no-stale-check", "owner-omitted", "no-clean-invalidate"):
             extra = {"Bug": '"%s"' % bug}
             if bug == "no-stale-check":
                 extra["FixDropByChain"] = False
